@@ -103,9 +103,12 @@ let () =
          match st with
          | None -> None
          | Some qs ->
-           (match spec_step qs (parse_op toks) with
+           let o = parse_op toks in
+           (match spec_step qs o with
             | SOk (qs', r) ->
-              emit (Printf.sprintf "%s | %s" (ans_str (is_eq toks) r) (pub_spec qs'));
+              (* `?oom`: the reference keeps the queues, and an implementation may also stop here as a failed
+                 request (a reserve no allocation can follow; BufferSpec.hint_unsat) - see judge in checks/C08.py *)
+              emit (Printf.sprintf "%s%s | %s" (if hint_unsat o then "?oom " else "") (ans_str (is_eq toks) r) (pub_spec qs'));
               Some qs'
             | SReject -> emit "! not-accepted"; None
             | SUnsat -> emit "! oom"; None))
